@@ -1,24 +1,4 @@
-mod rw;
-mod ast;
-mod tape;
-mod jsast;
-mod gen;
-mod engine;
-mod known;
-mod node;
-mod cfggen;
-mod erase;
-mod sites;
-mod analysis;
-mod props_static;
-mod props_dynamic;
-mod props_more;
-mod props_c06;
-mod props_map;
-mod props_c14;
-mod props_c11;
-mod smap;
-mod checks;
+use verif::{ast, checks, gen, props_more, rw};
 
 use serde_json::{json, Value};
 use std::io::Read;
